@@ -152,6 +152,7 @@ func refRender(ns []bnode, defs map[string][][]bnode, leaf int, cur string, curL
 }
 
 func suiteC10(cfg Config, res *Result) {
+	defer c10Depth(res)
 	defer c10Blocks(res)
 	defer c10Fixed(res)
 	res.Rule = "inheritance chains of depth 1..5 served from an in-memory loader: a base document with blocks at top level, nested in blocks, in if-branches and in for-loops; every level overrides a random subset (text, block.Super, Super of Super, new nested blocks), inherits the rest and writes junk outside blocks; every template of the chain is rendered and compared with a reference resolution (most-derived definition; Super = next less-derived) and with the Lean model; plus the invalid shapes (second extends, extends below root level, duplicate block name) must be compile errors; non-trivial = chain depth >= 2 with at least one Super; distinct by chain"
